@@ -229,6 +229,9 @@ type instrWriter struct {
 	inner io.WriteCloser
 	id    int
 	file  string
+	// ctx is the context CreateFile was called with: a gate that honours contexts releases a
+	// Write/Close/Abort of this writer when it is done (an upload stream bound to its request).
+	ctx context.Context
 	// plain field: two goroutines touching one writer is a data race the race
 	// detector reports (the DataStore contract promises one at a time).
 	shadow int
@@ -239,7 +242,7 @@ type instrWriterAbort struct{ *instrWriter }
 func (w *instrWriter) Write(p []byte) (int, error) {
 	w.shadow++
 	seq, act := w.s.Log.begin("Write", w.id, w.file, 0, int64(len(p)))
-	if err := pre(nil, act); err != nil {
+	if err := pre(w.ctx, act); err != nil {
 		w.s.Log.end(seq, err, 0)
 		return 0, err
 	}
@@ -259,7 +262,7 @@ func (w *instrWriter) Write(p []byte) (int, error) {
 func (w *instrWriter) Close() error {
 	w.shadow++
 	seq, act := w.s.Log.begin("Close", w.id, w.file, 0, 0)
-	if err := pre(nil, act); err != nil {
+	if err := pre(w.ctx, act); err != nil {
 		w.s.Log.end(seq, err, -1)
 		return err
 	}
@@ -279,7 +282,7 @@ func (w *instrWriter) Close() error {
 func (w instrWriterAbort) Abort() error {
 	w.shadow++
 	seq, act := w.s.Log.begin("Abort", w.id, w.file, 0, 0)
-	if err := pre(nil, act); err != nil {
+	if err := pre(w.ctx, act); err != nil {
 		w.s.Log.end(seq, err, -1)
 		return err
 	}
@@ -318,7 +321,7 @@ func (s *InstrDataStore) CreateFile(ctx context.Context) (io.WriteCloser, []byte
 	s.Log.Calls[seq].Handle = id
 	s.Log.mu.Unlock()
 	s.Log.end(seq, nil, -1)
-	iw := &instrWriter{s: s, inner: w, id: id, file: string(ptr)}
+	iw := &instrWriter{s: s, inner: w, id: id, file: string(ptr), ctx: ctx}
 	if _, ok := w.(interface{ Abort() error }); ok && !s.HideAbort {
 		return instrWriterAbort{iw}, ptr, nil
 	}
